@@ -570,15 +570,37 @@ type IndexExpression struct {
 	Index Node
 }
 
+func isNumberLiteral(n Node) bool {
+	switch n.(type) { //nolint:exhaustive // only the 2 number literals.
+	case *IntegerLiteral, *FloatLiteral:
+		return true
+	default:
+		return false
+	}
+}
+
+func printDotOperand(out *PrintState, n Node, isDot bool) {
+	paren := isDot && isNumberLiteral(n)
+	if paren {
+		out.Print("(")
+	}
+	n.PrettyPrint(out)
+	if paren {
+		out.Print(")")
+	}
+}
+
 func (ie IndexExpression) PrettyPrint(out *PrintState) *PrintState {
 	needParen, oldExpressionPrecedence := out.needParen(ie.Token)
 	if needParen {
 		out.Print("(")
 	}
-	ie.Left.PrettyPrint(out)
+	isDot := ie.Token.Type() == token.DOT
+	// (1).a or a.(1): a number next to the dot would be read as (part of) another number.
+	printDotOperand(out, ie.Left, isDot)
 	out.Print(ie.Literal())
 	out.ExpressionPrecedence = LOWEST
-	ie.Index.PrettyPrint(out)
+	printDotOperand(out, ie.Index, isDot)
 	if ie.Token.Type() == token.LBRACKET {
 		out.Print("]")
 	}
